@@ -3,8 +3,8 @@
    (nNodes x dim) boolean mask; every theorem below holds for EVERY such mask (hence for every BC set, including
    empty, full, overlapping and repeated node sets), every mesh and every number of fields. *)
 From Coq Require Import ZArith List Bool Arith Permutation Sorted.
-From OV.model Require Import M_C14_Dof.
-From OV.proofs Require Import L_C14.
+From OV.model Require Import M_C14_Dof M_C14_Asm.
+From OV.proofs Require Import L_C14 L_C14_Asm.
 Import ListNotations.
 
 (* the mask built by the constructor loop marks (n, c) iff some essential BC names component c and a node set containing n
@@ -90,6 +90,51 @@ Theorem C14_hessian_maps : forall isBc dim nNodes conns,
                           /\ i < get_unknown_size isBc /\ j < get_unknown_size isBc)).
 Proof. exact hessian_maps_full. Qed.
 
+(* ---- the index maps as the assembler USES them (model/M_C14_Asm.v; SparseMatrixAssembler.assemble_sparse_stiffness_matrix) ----
+   assemble_maps = coo_matrix((kValues[hessian_bc_mask], (HessRowCoords, HessColCoords)), shape=(nUnknowns, nUnknowns)), duplicates
+   summed;  assemble = the dense matrix built BY HAND from the element matrices, the connectivity and the BC mask alone: entry
+   (i, j) is the sum of the block entries (a, b) of all elements with  dof b = i-th non-essential dof,  dof a = j-th non-essential
+   dof (no index map, no dofToUnknown).  They are the same matrix for every mask, every valid connectivity and all element
+   matrices, and its shape is unknown x unknown. *)
+Theorem C14_assembly_by_hand : forall isBc dim nNodes conns kvals,
+  length isBc = nNodes * dim -> valid_conns nNodes conns -> asm_blocks_ok dim conns kvals ->
+  assemble_maps isBc dim conns kvals = assemble isBc dim conns kvals
+  /\ length (assemble isBc dim conns kvals) = get_unknown_size isBc
+  /\ Forall (fun row => length row = get_unknown_size isBc) (assemble isBc dim conns kvals).
+Proof. exact assemble_maps_by_hand_full. Qed.
+
+(* purity / no hidden state.  The model of a sequence of assemblies in one process answers request k from request k alone:
+   the k-th matrix is the by-hand matrix of the k-th (element matrices, connectivity, declared BCs), whatever was assembled
+   before or after it, and for valid requests it is what the index-map path gives.  (About the MODEL this is immediate -- a Coq
+   function has no state; the content is the SPECIFICATION it fixes for the implementation, which the HISTORY stream of
+   tools/props/c14.py compares with the real assembler on sequences of assemblies with different DofManagers of equal sizes.) *)
+Theorem C14_assembly_no_hidden_state :
+  (forall h k d, k < length h -> nth k (assemble_history h) [] = assemble_request (nth k h d))
+  /\ (forall pre pre' post post' r,
+        nth (length pre) (assemble_history (pre ++ r :: post)) [] = nth (length pre') (assemble_history (pre' ++ r :: post')) [])
+  /\ (forall h, Forall valid_request h -> map assemble_request_maps h = assemble_history h)
+  /\ (forall h, length (assemble_history h) = length h).
+Proof. exact history_pure. Qed.
+
+(* ... and the declared BC list matters only through the SET of (node, component) pairs it names (order, repeats, the way the
+   pairs are grouped into node sets are irrelevant) *)
+Theorem C14_assembly_depends_on_bc_set : forall r r',
+  r_nNodes r = r_nNodes r' -> r_dim r = r_dim r' -> r_conns r = r_conns r' -> r_kvals r = r_kvals r' ->
+  (forall n c, (exists nodes, In (nodes, c) (r_ebcs r) /\ In n nodes) <-> (exists nodes, In (nodes, c) (r_ebcs r') /\ In n nodes)) ->
+  assemble_request r = assemble_request r' /\ assemble_request_maps r = assemble_request_maps r'.
+Proof. exact request_depends_on_bc_set. Qed.
+
+(* non-vacuity of the three statements above: two valid requests of equal sizes (same number of unknowns, COO triplets and mask
+   shape) whose index maps differ, assembled A, B, A *)
+Example C14_history_nonvacuous :
+  valid_request ex_req_A /\ valid_request ex_req_B
+  /\ assemble_history [ex_req_A; ex_req_B; ex_req_A]
+     = [ [[1;4;7];[2;5;8];[3;6;9]]; [[9;6;3];[8;5;2];[7;4;1]]; [[1;4;7];[2;5;8];[3;6;9]] ]%Z
+  /\ map assemble_request_maps [ex_req_A; ex_req_B; ex_req_A] = assemble_history [ex_req_A; ex_req_B; ex_req_A]
+  /\ length (HessRowCoords (request_mask ex_req_A) 1 (r_conns ex_req_A)) = length (HessRowCoords (request_mask ex_req_B) 1 (r_conns ex_req_B))
+  /\ HessRowCoords (request_mask ex_req_A) 1 (r_conns ex_req_A) <> HessRowCoords (request_mask ex_req_B) 1 (r_conns ex_req_B).
+Proof. exact ex_history. Qed.
+
 (* non-vacuity: a concrete BC list with a repeated node, two overlapping node sets and an empty node set; an empty BC
    list; a full BC set given twice over; a valid two-element connectivity *)
 Example C14_nonvacuous :
@@ -107,3 +152,4 @@ Print Assumptions C14_roundtrip.
 Print Assumptions C14_dofToUnknown.
 Print Assumptions C14_slice_component.
 Print Assumptions C14_hessian_maps.
+Print Assumptions C14_assembly_by_hand.
